@@ -281,7 +281,8 @@ def roulette_wheel_indexes(probabilities: np.ndarray, num: int | None = 1) -> li
     """
     final_probabilities = np.max(probabilities) - probabilities
     k = list(set(range(0, len(probabilities))))
-    if all(final_probabilities == 0):
+    # degenerate weights (all equal, or not finite because the caller normalised by a zero sum): uniform selection
+    if all(final_probabilities == 0) or not np.all(np.isfinite(final_probabilities)):
         return np.random.choice(k, size=num, replace=False)
 
     p = final_probabilities / np.sum(final_probabilities)
